@@ -42,6 +42,11 @@ ClassFlags(r) ==
          LET b == DecPacket(r.ty, r.base) IN
          IF r.st = "ok" /\ b.ok /\ r.field \in DOMAIN r.val /\ r.val[r.field] # ObsStruct(r.ty, b.val)[r.field]
          THEN {"P14-nested"} ELSE {}
+    [] cls = "nestedtail" ->
+         \* what a nested container leaves unread and what follows the container are both handed on (LeakRemainder), nothing is lost
+         LET d == DecPacket(r.ty, r.in) IN
+         IF (d.ok /\ r.st = "ok" /\ (ObsStruct(r.ty, d.val) # r.val \/ Len(d.rest) # r.rest)) \/ (d.ok # (r.st = "ok"))
+         THEN {"P14-nested-tail"} ELSE {}
     [] OTHER -> {}
 
 Flags(r) ==
